@@ -27,8 +27,8 @@ Simple(k, n) ==
     [] k = "return" -> Return(<<Name("r")>>)
 
 Inner(k) == CASE k = "do" -> <<"local", "call">> [] k = "repeat" -> <<"call">> [] k = "if" -> <<"assign">> [] k = "func" -> <<"local", "return">>
-              [] k = "afunc" -> <<"local", "return">> [] OTHER -> <<>>
-IsContainer(k) == k \in {"do", "if", "func", "repeat", "afunc"}
+              [] k = "afunc" -> <<"local", "return">> [] k = "ifret" -> <<"return">> [] OTHER -> <<>>
+IsContainer(k) == k \in {"do", "if", "func", "repeat", "afunc", "ifret"}
 Size(k) == 1 + Len(Inner(k))
 
 RECURSIVE Base(_, _)
@@ -47,6 +47,7 @@ ItemTree(p, ds, j) ==
       inner == [m \in DOMAIN Inner(k) |-> Wrap(Simple(Inner(k)[m], "i"), ds, b + m)]
   IN  Wrap(CASE k = "do"   -> Do(Block(inner))
              [] k = "if"   -> If(Name("c"), Block(inner))
+             [] k = "ifret" -> If(Name("c"), Block(inner))          \* an if guard: the body is a lone `return`
              [] k = "func" -> LocalFunction("h", <<>>, Block(inner))
              [] k = "repeat" -> Repeat(Block(inner), Name("done"))
              \* an anonymous function as the value of a local: a range can hold the whole `function .. end` without holding the statement
